@@ -31,3 +31,11 @@ func VerifTableNames(st *Stack) []string {
 	}
 	return r
 }
+
+// VerifSetSuppress sets suppressDeletions of a merged table (the stack's view sets it).
+func VerifSetSuppress(m *Merged, on bool) { m.suppressDeletions = on }
+
+// VerifCompactRange exposes compactRange (tables first..last inclusive).
+func VerifCompactRange(st *Stack, first, last int, exp *LogExpirationConfig) (bool, error) {
+	return st.compactRange(first, last, exp)
+}
